@@ -199,6 +199,7 @@ type Solver struct {
 	ctx       *Ctx
 	Stats     Stats
 	LastErr   string
+	scoped    bool
 	Log       io.Writer // optional transcript
 }
 
@@ -231,6 +232,9 @@ func (s *Solver) Close() {
 }
 
 func (s *Solver) send(txt string) {
+	if s.cmd == nil {
+		return
+	}
 	if s.Log != nil {
 		io.WriteString(s.Log, txt)
 	}
@@ -248,9 +252,16 @@ func (s *Solver) Begin(c *Ctx) {
 	}
 	s.ctx = c
 	s.em = NewEmitter(c)
-	s.send("(reset)\n")
-	if s.TimeoutMS > 0 {
-		s.send(fmt.Sprintf("(set-option :timeout %d)\n", s.TimeoutMS))
+	s.LastErr = ""
+	// (reset) costs ~50 ms in Z3 5.1; an outer push/pop scope per path costs nothing
+	if !s.scoped {
+		if s.TimeoutMS > 0 {
+			s.send(fmt.Sprintf("(set-option :timeout %d)\n", s.TimeoutMS))
+		}
+		s.send("(push 1)\n")
+		s.scoped = true
+	} else {
+		s.send("(pop 1)\n(push 1)\n")
 	}
 }
 
@@ -269,6 +280,7 @@ func (s *Solver) readLine() string {
 		s.cmd.Process.Kill()
 		s.cmd.Wait()
 		s.cmd = nil
+		s.scoped = false
 		return ""
 	}
 	return strings.TrimSpace(line)
@@ -278,6 +290,10 @@ func (s *Solver) readLine() string {
 // variables is returned on sat.
 func (s *Solver) Check(extra *Term, wantModel bool) (Result, Model) {
 	t0 := time.Now()
+	if s.cmd == nil {
+		s.LastErr = "solver process not running"
+		return Unknown, nil
+	}
 	var sb strings.Builder
 	if extra != nil {
 		s.em.Decls(&sb, extra)
